@@ -143,3 +143,36 @@ theorem sampleEdge_total (T : STable α) (u : α) (g : Mask)
     | some x => rfl
 
 end Momtrop.C06
+
+namespace Momtrop.C06
+open Momtrop Scalar
+variable {α : Type} [Scalar α]
+
+/-- if every running sum over `pre` stays below `u` and the running sum reaches `u` at `e`, the scan
+returns `e` (law-free converse of `scan_spec`: the selected edge is determined by the comparisons) -/
+theorem scan_hit (T : STable α) (u : α) (g : Mask) :
+    ∀ (pre : List Nat) (e : Nat) (post : List Nat) (c : α) (last : Option (Nat × Mask)),
+      (∀ pre' e' post', pre = pre' ++ e' :: post' → geB (cumAfter T g (pre' ++ [e']) c) u = false) →
+      geB (cumAfter T g (pre ++ [e]) c) u = true →
+      scanEdges T u g (pre ++ e :: post) c last = some (e, Mask.pop g e) := by
+  intro pre
+  induction pre with
+  | nil =>
+    intro e post c last _ hhit
+    simp only [List.nil_append, scanEdges]
+    have : geB (c + edgeProb T g e) u = true := by simpa [cumAfter] using hhit
+    simp [this]
+  | cons a pre ih =>
+    intro e post c last hmiss hhit
+    simp only [List.cons_append, scanEdges]
+    have hma : geB (c + edgeProb T g a) u = false := by
+      have := hmiss [] a pre rfl
+      simpa [cumAfter] using this
+    simp only [hma, Bool.false_eq_true, if_false]
+    apply ih
+    · intro pre' e' post' hp
+      have := hmiss (a :: pre') e' post' (by rw [hp]; rfl)
+      simpa [cumAfter] using this
+    · simpa [cumAfter] using hhit
+
+end Momtrop.C06
